@@ -123,6 +123,9 @@ func c09NewCtlEnv(mode string) (*c09CtlEnv, error) {
 
 func (e *c09CtlEnv) teardown() {
 	e.w.abort()
+	// let every client goroutine run to its end against the (now failing) fakes
+	// before the real factory is put back
+	synctest.Wait()
 	e.w.mu.Lock()
 	e.w.shutdown = true
 	e.w.mu.Unlock()
@@ -328,7 +331,9 @@ func c09ControllerCase(t *rapid.T) {
 		failedStep := act.kind == c09ActTrunc || act.kind == c09ActTimeout || act.kind == c09ActError
 		if len(next) == 1 {
 			np := next[0]
-			fallbackOK := mode == "tcp+udp" && call.fwd.proto == consts.L4ProtoStr_UDP && np.fwd.proto == consts.L4ProtoStr_TCP && failedStep
+			// an answer to a different question may be rejected, i.e. count as a failed step
+			fallbackOK := mode == "tcp+udp" && call.fwd.proto == consts.L4ProtoStr_UDP && np.fwd.proto == consts.L4ProtoStr_TCP &&
+				(failedStep || act.kind == c09ActForeign)
 			if !fallbackOK {
 				fail("after upstream step %s for %s a second upstream call (fwd#%d %s) was started although this is not a UDP->TCP fallback", c09ActString(act), key, np.fwd.id, np.fwd.proto)
 			}
